@@ -53,6 +53,17 @@ PROPS = {
             "panics are outside the family; programs are timing independent except generous timeouts",
         ],
     },
+    "C19": {
+        "kind": "ct19",
+        "modules": ["Hannibal.Props.C19", "Hannibal.Props.C19Current"],
+        "theorems": ["Hannibal.C19_holds", "Hannibal.C19_no_bypass", "Hannibal.C19_current",
+                     "Hannibal.wellWired19_current"],
+        "cases": {"quick": {}, "thorough": {}},
+        "assumptions": [
+            "rustc's trait solver is modelled only for the bound shapes that occur in hannibal's API surface",
+            "the catalogue is the tie between that abstraction and rustc (53 programs, 21 entry points)",
+        ],
+    },
     "C12": {
         "modules": ["Hannibal.Props.C12"],
         "theorems": ["Hannibal.C12_holds", "Hannibal.C12_current", "Hannibal.C12_state",
